@@ -342,6 +342,7 @@ static DOMElement* asEl(DOMNode* n) { if (!n || n->getNodeType() != DOMNode::ELE
 static DOMAttr* asAttr(DOMNode* n) { if (!n || n->getNodeType() != DOMNode::ATTRIBUTE_NODE) throw std::string("bad:not an attribute"); return (DOMAttr*)n; }
 static DOMCharacterData* asCD(DOMNode* n) { if (!n || !isCharData(n)) throw std::string("bad:not character data"); return (DOMCharacterData*)n; }
 static DOMText* asText(DOMNode* n) { if (!n || (n->getNodeType() != DOMNode::TEXT_NODE && n->getNodeType() != DOMNode::CDATA_SECTION_NODE)) throw std::string("bad:not text"); return (DOMText*)n; }
+static_assert(sizeof(XMLSize_t) == 8, "the generators of pbt/domhist.py assume a 64-bit XMLSize_t (SIZE_MAX = 2^64-1)");
 static XMLSize_t toSize(const std::string& s) { return (XMLSize_t)strtoull(s.c_str(), 0, 10); }
 
 // result encodings
